@@ -14,5 +14,25 @@ mkdir -p bin evidence replay
   flock 9
   go build -tags verif -o bin/check ./cmd/check || exit 3
   if [ "$ID" = "C19" ]; then go build -race -tags verif -o bin/check-race ./cmd/check || exit 3; fi
-) 9>bin/.buildlock || { echo "BUILD FAILED for $ID (harness or /repo does not compile with -tags verif)"; exit 3; }
-exec ./bin/check "$ID" --tier "$TIER" "$@"
+) 9>bin/.buildlock
+rc=$?
+if [ $rc -ne 0 ]; then
+  echo "BUILD FAILED for $ID: the harness or /repo does not compile with -tags verif"
+  exit 3
+fi
+ERR=$(mktemp /tmp/verif-$ID-stderr.XXXXXX)
+./bin/check "$ID" --tier "$TIER" "$@" 2> >(tee "$ERR" >&2)
+rc=$?
+# A fatal runtime error (concurrent map access, stack exhaustion, ...) or an uncaught panic
+# while the monitor was driving cedar-go kills the whole process before it can report:
+# that is itself an observation the property forbids, so turn it into a violation.
+if [ $rc -ne 0 ] && [ $rc -ne 1 ] && grep -qE '^(fatal error:|panic:)' "$ERR"; then
+  mkdir -p "replay/$ID"
+  cp "$ERR" "replay/$ID/process-crash.log"
+  echo "VIOLATION property=$ID replay=/verif/replay/$ID/process-crash.log"
+  echo "  signature=check process crashed: $(grep -m1 -E '^(fatal error:|panic:)' "$ERR")"
+  rm -f "$ERR"
+  exit 1
+fi
+rm -f "$ERR"
+exit $rc
